@@ -40,30 +40,36 @@ def hidden_ok(ref, p):
     return bool(p) and X.valid_pos(ref, p) and not isinstance(X.get_at(ref, p), list)
 
 
+def hid_valid(ref, p, hid):
+    """every node of the path after which a hidden index was written is (still) not a list"""
+    return all(X.valid_pos(ref, p[:k]) and not isinstance(X.get_at(ref, p[:k]), list) for k in hid)
+
+
 def gen_history(rng, tree, nops):
     """list of (pos, xp, value) writes; positions are evaluated in the current reference state.
     Biased towards what a per-path cache would get wrong: the same xpath written again, and an
-    ancestor replaced (through another spelling of the same node) by a copy of itself in between."""
+    ancestor replaced (through another spelling of the same node) by a copy of itself in between.
+    Hidden lists: nodes on the path that are not lists may be followed by an index that addresses the node itself
+    (`hid`: the prefix lengths; `hidden`: also the written node)."""
     ref = copy.deepcopy(tree)
     ops = []
-    prev = []  # (pos, xp) of earlier writes
-    hidden = {}  # (pos, xp) written through a hidden-list spelling -> the spelling of the node itself
+    prev = []  # (pos, xp, hid) of earlier writes
     for _ in range(nops):
         poss = [p for p, _ in X.positions(ref) if p]
         if not poss:
             break
         r = rng.random()
         done = False
+        hid = []
         if prev and r < 0.25:
-            p, xp = rng.choice(prev)
+            p, xp, hid = rng.choice(prev)
             # only spellings whose meaning does not depend on the current list lengths can be repeated verbatim
-            # (a hidden spelling addresses the node only while the node is not a list)
-            base = hidden.get((tuple(p), xp), xp)
-            if X.valid_pos(ref, p) and "last()" not in base and "-" not in base and (base == xp or hidden_ok(ref, p)):
+            # (a hidden index addresses the node only while the node is not a list)
+            if X.valid_pos(ref, p) and "last()" not in xp and "-" not in xp and hid_valid(ref, p, hid):
                 v = copy.deepcopy(rng.choice(VALUES))
                 done = True
         elif prev and r < 0.5:
-            p0, _ = rng.choice(prev)
+            p0 = rng.choice(prev)[0]
             if len(p0) > 1:
                 p = tuple(p0[: rng.randrange(1, len(p0))])
                 try:
@@ -74,21 +80,26 @@ def gen_history(rng, tree, nops):
                             for kk in v:
                                 if not isinstance(v[kk], (dict, list)):
                                     v[kk] = 0
+                        hid = []
                         xp = X.render(rng, ref, p)
                         done = True
                 except Exception:
                     done = False
         if not done:
             p = rng.choice(poss)
-            xp = X.render(rng, ref, p)
+            hid = []
+            xp = X.render(rng, ref, p, hidden=0.06, hidden_at=hid)
             v = copy.deepcopy(rng.choice(VALUES))
-            if hidden_ok(ref, p) and rng.random() < 0.12:
-                hidden[(tuple(p), xp + (sfx := rng.choice(HIDDEN)))] = xp
-                xp += sfx
+            if hidden_ok(ref, p) and rng.random() < 0.1:
+                xp += rng.choice(HIDDEN)
+                if len(p) not in hid:
+                    hid.append(len(p))
         ops.append({"pos": list(p), "xp": xp, "v": v})
-        if (tuple(p), xp) in hidden:
-            ops[-1]["hidden"] = True
-        prev.append((tuple(p), xp))
+        if hid:
+            ops[-1]["hid"] = list(hid)
+            if len(p) in hid:
+                ops[-1]["hidden"] = True
+        prev.append((tuple(p), xp, list(hid)))
         par = X.get_at(ref, p[:-1])
         par[p[-1]] = copy.deepcopy(v)
     return ops
@@ -141,7 +152,7 @@ def check_history(c):
 def in_known(c, detail):
     """C02-a (a write through index 0 / -1 / last() on a single value went into a temporary list and was lost) is
     repaired by fix C03-e; the class counts only while known_findings/C02.json lists it as open"""
-    if "ops" in c and isinstance(detail, dict) and isinstance(detail.get("step"), int) and c["ops"][detail["step"]].get("hidden") \
+    if "ops" in c and isinstance(detail, dict) and isinstance(detail.get("step"), int) and c["ops"][detail["step"]].get("hid") \
             and "C02-a" in {f["id"] for f in core.load_known("C02")[0]}:
         return "C02-a"
     return None
@@ -172,8 +183,8 @@ def shrink_failure(evaluator, case):
         for op in c["ops"]:
             try:
                 par = X.get_at(ref, op["pos"][:-1])
-                if op.get("hidden") and isinstance(par[op["pos"][-1]], list):
-                    return False        # a hidden spelling addresses the node only while it is not a list
+                if not hid_valid(ref, op["pos"], op.get("hid", [])) or (op.get("hidden") and len(op["pos"]) not in op.get("hid", [len(op["pos"])])):
+                    return False        # a hidden index addresses the node only while the node is not a list
                 par[op["pos"][-1]] = copy.deepcopy(op["v"])
             except Exception:
                 return False
@@ -234,7 +245,7 @@ def run(ctx):
         p = rng3.choice(singles)
         xp = X.render(rng3, t, p) + rng3.choice(HIDDEN)
         hcases.append({"tree": t, "mode": rng3.choice(["n0", "wrap"]),
-                       "ops": [{"pos": list(p), "xp": xp, "v": copy.deepcopy(rng3.choice(VALUES)), "hidden": True}]})
+                       "ops": [{"pos": list(p), "xp": xp, "v": copy.deepcopy(rng3.choice(VALUES)), "hidden": True, "hid": [len(p)]}]})
     ctx.evaluate("hidden_list", hcases, check_history, in_known=in_known,
                  nontrivial=lambda c: isinstance(c["ops"][0]["pos"][-1], int) or isinstance(X.get_at(c["tree"], c["ops"][0]["pos"]), dict))
     rk = []
@@ -257,7 +268,7 @@ def run(ctx):
                         ex.append({"tree": t, "mode": "n0", "ops": [{"pos": list(p), "xp": xp, "v": v}]})
                 if not isinstance(X.get_at(t, p), list):
                     for sfx in ("[0]", "[-1]"):
-                        ex.append({"tree": t, "mode": "n0", "ops": [{"pos": list(p), "xp": xp + sfx, "v": "V", "hidden": True}]})
+                        ex.append({"tree": t, "mode": "n0", "ops": [{"pos": list(p), "xp": xp + sfx, "v": "V", "hidden": True, "hid": [len(p)]}]})
     ctx.evaluate("history/exhaustive", ex, check_history, in_known=in_known)
     ctx.extra["exhaustive_subspace"] = "all dict-rooted trees with <= %d nodes below the root, every position addressed through an xpath, one write" % nmax
     # B: each step of each history, model vs implementation, starting from the implementation's state
